@@ -3,7 +3,7 @@
 # (RPFT_REPO points the whole machinery — translator, correspondence, oracles — at that tree).  Runs in the seedrun worktree of /verif
 # when it exists so that the lead's tree is not disturbed.  Prints the verdict lines; exit status of the check.
 NAME=$1; PROP=${2:-${NAME%%-*}}; TIER=${3:-quick}
-V=/tmp/wv/seedrun; [ -d $V ] || V=/verif
+V=${SEEDRUN_V:-/tmp/wv/seedrun}; [ -d $V ] || V=/verif
 WT=/tmp/seedrun_$NAME
 git -C /repo worktree remove --force $WT 2>/dev/null; rm -rf $WT
 git -C /repo worktree add --detach $WT HEAD >/dev/null 2>&1 || exit 2
